@@ -85,7 +85,10 @@ def run(ctx):
     for _ in range(ctx.budget(500, 10000)):
         if ctx.out_of_time():
             break
-        case = gen_stereo.stereo_case(rng)
+        long = rng.random() < 0.08
+        case = gen_stereo.stereo_case(rng, long=long)
+        if long:
+            ctx.feature('more-than-ten-fragments')
         suites.run_resolve_case(ctx, 'stereo', case, oracle=oracle)
         ctx.feature('cuts:' + '+'.join(case['cuts']) + (':natural' if case['natural'] else ':permuted'))
         if case['labels']:
